@@ -21,6 +21,11 @@ type Codec struct {
 	Marshals   int
 	Unmarshals int
 	Distinct   map[string]struct{} // distinct encoded values seen (evidence)
+	// used objects: the last token and role list some earlier Unmarshal filled. Users of the codec
+	// decode into objects they keep (Reset, then Unmarshal - what this adapter and proto.Unmarshal
+	// do): the value decoded into a used object must be the value decoded into a fresh one
+	usedToken *esdt.ESDigitalToken
+	usedRoles *esdt.ESDTRoles
 }
 
 // NewCodec returns a checking codec.
@@ -172,8 +177,50 @@ func (c *Codec) Unmarshal(obj interface{}, buff []byte) error {
 	err := m.Unmarshal(buff)
 	if err == nil && c.Check {
 		c.checkDecoding(obj, buff)
+		c.checkReuse(obj, buff)
 	}
 	return err
+}
+
+// checkReuse decodes buff a second time, into the object an earlier decoding left behind, and compares
+// the re-encoding of both results; the fresh result then becomes the used object (as a private copy).
+func (c *Codec) checkReuse(obj interface{}, buff []byte) {
+	switch v := obj.(type) {
+	case *esdt.ESDigitalToken:
+		want, err := v.Marshal()
+		if err != nil {
+			return
+		}
+		if u := c.usedToken; u != nil {
+			u.Reset()
+			if err := u.Unmarshal(buff); err != nil {
+				c.report("decode into a used object: Reset+Unmarshal(%x) fails with %v, a fresh object accepts it", buff, err)
+			} else if got, _ := u.Marshal(); !bytes.Equal(got, want) || (u.TokenMetaData == nil) != (v.TokenMetaData == nil) || u.Size() != v.Size() {
+				c.report("decode into a used object: Reset+Unmarshal(%x) gives a value that encodes as %x (metadata present: %v), a fresh object gives %x (metadata present: %v)", buff, got, u.TokenMetaData != nil, want, v.TokenMetaData != nil)
+			}
+		}
+		cp := &esdt.ESDigitalToken{}
+		if cp.Unmarshal(append([]byte{}, buff...)) == nil {
+			c.usedToken = cp
+		}
+	case *esdt.ESDTRoles:
+		want, err := v.Marshal()
+		if err != nil {
+			return
+		}
+		if u := c.usedRoles; u != nil {
+			u.Reset()
+			if err := u.Unmarshal(buff); err != nil {
+				c.report("decode into a used object: roles Reset+Unmarshal(%x) fails with %v", buff, err)
+			} else if got, _ := u.Marshal(); !bytes.Equal(got, want) || len(u.Roles) != len(v.Roles) {
+				c.report("decode into a used object: roles Reset+Unmarshal(%x) gives %x, a fresh object gives %x", buff, got, want)
+			}
+		}
+		cp := &esdt.ESDTRoles{}
+		if cp.Unmarshal(append([]byte{}, buff...)) == nil {
+			c.usedRoles = cp
+		}
+	}
 }
 
 func (c *Codec) checkDecoding(obj interface{}, buff []byte) {
